@@ -20,7 +20,7 @@ func (c12) NumCases(tier string) int {
 	if tier == "thorough" {
 		return 400_000
 	}
-	return 4_800
+	return 4_400
 }
 
 func (c12) Describe() CheckInfo {
@@ -44,6 +44,13 @@ func (c12) Describe() CheckInfo {
 // express: insertions that repeat their neighbours, changes in the first and
 // last line, deletions down to almost nothing, distant and adjacent hunks
 var c12Shapes = []struct{ name, patch, src string }{
+	// the '-' side matches only where the replacement cannot stand (a declared
+	// name, a field name, a label): whatever gopatch makes of that, every mode
+	// and the library make the same of it
+	{"matches-only-a-declared-name", "@@\n@@\n-vfFoo\n+vfBar.Baz\n", "package a\n\nfunc vfFoo()   {}\n"},
+	{"matches-only-a-var-name", "@@\n@@\n-vfFoo\n+vfBar.Baz\n", "package a\n\nvar  vfFoo  =  1\n\nfunc f() {}\n"},
+	{"matches-only-a-field-name", "@@\n@@\n-vfFoo\n+vfBar(1)\n", "package a\n\ntype T struct {\n\tvfFoo   int\n}\n"},
+	{"matches-a-name-and-a-use", "@@\n@@\n-vfFoo\n+vfBar.Baz\n", "package a\n\nvar  vfFoo  =  1\n\nfunc f() int { return vfFoo }\n"},
 	{"insert-block-equal-to-previous-at-end", "@@\n@@\n-vfTail()\n+if ok {\n+\tlog()\n+}\n", "package a\n\nfunc f() {\n\tif ok {\n\t\tlog()\n\t}\n\tvfTail()\n}\n"},
 	{"duplicate-last-statement", "@@\nvar x expression\n@@\n-vfDup(x)\n+keep(x)\n+keep(x)\n", "package a\n\nfunc f() {\n\tsetup()\n\tkeep(1)\n\tvfDup(1)\n}\n"},
 	{"duplicate-two-line-tail", "@@\n@@\n-vfTail()\n+a()\n+b()\n", "package a\n\nfunc f() {\n\tx()\n\ta()\n\tb()\n\tvfTail()\n}\n"},
